@@ -10,7 +10,7 @@ from sa.engine.context import Ctx
 from sa.engine.guards import path_conditions
 from sa.engine.loader import anorm, local_names, AnalysisError, dotted, norm, short, walk_own
 from sa.engine.report import Finding, RuleReport
-from sa.rules.common import INIT, X, raised_class
+from sa.rules.common import with_constants, INIT, X, raised_class
 
 ARCH = X + "archive_extractor.py"
 SZ = X + "util/sevenzip.py"
@@ -486,7 +486,7 @@ def rule_empty(ctx: Ctx) -> RuleReport:
         rep.fail(Finding("C12-EMPTY", ODS, f.qual, "return None, ''", "_extract_cell_value never reports an empty cell as None", line=f.node.lineno))
     # the caps themselves: both repeats have an `> CONST` escape for empty content
     sh = ctx.p.func(ODS, "_extract_sheet")
-    tests = [anorm(n.test, sh.node) for n in walk_own(sh.node) if isinstance(n, ast.If)]
+    tests = [anorm(with_constants(ctx, sh, n.test), sh.node) for n in walk_own(sh.node) if isinstance(n, ast.If)]
     for want in ("v0 is None and v1 > 100", "v0 > 100 and all((v1[0] is None for v1 in v2))"):
         if want in tests:
             rep.ok({"cap": want})
